@@ -28,6 +28,7 @@ import (
 	"cuelang.org/go/cmd/cue/cmd"
 	"cuelang.org/go/cue/ast"
 	"cuelang.org/go/cue/parser"
+	"cuelang.org/go/cue/token"
 )
 
 func init() { props["C02"] = runC02 }
@@ -76,8 +77,8 @@ func runC02(c *Cfg) {
 	maxSize := c.Pick(4<<10, 64<<10)
 	seeds := c02LoadSeeds(repo, maxSize)
 	c.Count(fmt.Sprintf("seeds/%d", len(seeds)/1000*1000))
-	nRaw := c.Pick(2600, 60000)
-	nProg := c.Pick(2600, 60000)
+	nRaw := c.Pick(1500, 40000)
+	nProg := c.Pick(1500, 40000)
 	if c.Focus {
 		nRaw, nProg = nRaw*2, nProg*2
 	}
@@ -126,7 +127,7 @@ func runC02(c *Cfg) {
 	}
 
 	cpuMs := c.Pick(20000, 40000)
-	pool := &c02Pool{dir: filepath.Join(c.Out, "workers"), wall: time.Duration(c.Pick(90, 180)) * time.Second}
+	pool := &c02Pool{dir: filepath.Join(c.Out, "workers"), wall: time.Duration(c.Pick(60, 120)) * time.Second}
 	defer pool.closeAll()
 	workers := min(runtime.NumCPU(), 16)
 	var mu sync.Mutex
@@ -155,7 +156,7 @@ func runC02(c *Cfg) {
 	}
 	for i, cs := range cases {
 		next <- cs
-		if i%17 == 0 || cs.kind == "idiom" {
+		if i%23 == 0 || cs.kind == "idiom" && i%3 == 0 {
 			cliSample = append(cliSample, cs)
 		}
 	}
@@ -164,7 +165,7 @@ func runC02(c *Cfg) {
 	c.Count(fmt.Sprintf("workers-started/%d", pool.started))
 
 	// ---- the CLI entry point on a sample ---------------------------------------------
-	nCLI := c.Pick(260, 3000)
+	nCLI := c.Pick(130, 2000)
 	if len(cliSample) > nCLI {
 		cliSample = cliSample[:nCLI]
 	}
@@ -278,7 +279,10 @@ func c02RunCLI(c *Cfg, sample []*c02Case) []*c02Failure {
 	var out []*c02Failure
 	var wg sync.WaitGroup
 	ch := make(chan *c02Case, 64)
-	cmds := [][]string{{"eval", "-a", "in.cue"}, {"export", "--out", "json", "in.cue"}, {"export", "--out", "yaml", "in.cue"}, {"vet", "-c", "in.cue"}, {"def", "in.cue"}}
+	cmds := [][]string{{"eval", "-a", "in.cue"}, {"export", "--out", "json", "in.cue"}, {"export", "--out", "yaml", "in.cue"}, {"vet", "-c", "in.cue"}}
+	if c.Thorough() {
+		cmds = append(cmds, []string{"def", "in.cue"}, []string{"fmt", "--check", "in.cue"})
+	}
 	timeout := time.Duration(c.Pick(120, 240)) * time.Second
 	for w := 0; w < min(runtime.NumCPU(), 16); w++ {
 		wg.Add(1)
@@ -371,13 +375,16 @@ func c02Still(c *Cfg, pool *c02Pool, f *c02Failure, src []byte, cpuMs int) bool 
 		// timeouts are minimised with a smaller budget so that the loop finishes; the final
 		// candidate is confirmed with the full budget by the caller
 		budget := cpuMs
-		if f.kind == "timeout" {
+		if c02Resource[f.kind] {
 			budget = cpuMs / 4
 		}
 		o := pool.AskFresh(&c02Req{Src: src, Runs: 1, CPUms: budget})
-		return o.Kind == f.kind
+		// which resource gives out first depends on limits and load: any of them counts
+		return o.Kind != "" && (o.Kind == f.kind || c02Resource[o.Kind] && c02Resource[f.kind])
 	}
 }
+
+var c02Resource = map[string]bool{"timeout": true, "deadlock": true, "stack-overflow": true, "memory": true}
 
 // c02PanicSite: the panic value and innermost frame without line-independent noise
 func c02PanicSite(p string) string {
@@ -442,9 +449,10 @@ func c02Minimise(c *Cfg, pool *c02Pool, f *c02Failure, cpuMs int, budget time.Du
 	return cur
 }
 
-// c02Classify gives a failure a NARROW class: the failure kind, the site (for panics the
-// panic value + innermost frame; for crashes the runtime's message) and, for
-// nondeterminism, the construct involved.
+// c02Classify gives a failure a NARROW class.  Nondeterminism and resource failures (stack
+// overflow, CPU time, memory, deadlock — which of these a runaway recursion ends in depends on
+// the limits and on machine load) are classed by the CONSTRUCT of the minimised input when it
+// is a recognised one, otherwise by the failure kind; panics by panic value + innermost frame.
 func c02Classify(f *c02Failure, min []byte) string {
 	switch f.kind {
 	case "nondeterministic", "cli-nondeterministic":
@@ -458,8 +466,56 @@ func c02Classify(f *c02Failure, min []byte) string {
 		site = regexp.MustCompile(`[^A-Za-z0-9_.:()*\[\]-]+`).ReplaceAllString(site, "_")
 		return "panic/" + c02Trunc(site, 140)
 	default:
+		if c02HasBoundWithRequired(min) {
+			return "struct-embeds-ordered-bound-and-required-field"
+		}
 		return f.kind
 	}
+}
+
+// c02HasBoundWithRequired: some struct literal (or the file) embeds an expression containing
+// an ordered bound (< <= > >=) and declares a regular required field (`b!:`).
+func c02HasBoundWithRequired(src []byte) bool {
+	f, _ := parser.ParseFile("in.cue", src)
+	if f == nil {
+		return false
+	}
+	found := false
+	check := func(decls []ast.Decl) {
+		bound, req := false, false
+		for _, d := range decls {
+			switch x := d.(type) {
+			case *ast.EmbedDecl:
+				ast.Walk(x.Expr, func(n ast.Node) bool {
+					if u, ok := n.(*ast.UnaryExpr); ok {
+						switch u.Op {
+						case token.LSS, token.LEQ, token.GTR, token.GEQ:
+							bound = true
+						}
+					}
+					_, isStruct := n.(*ast.StructLit)
+					return !isStruct
+				}, nil)
+			case *ast.Field:
+				if x.Constraint == token.NOT {
+					if id, ok := x.Label.(*ast.Ident); !ok || !strings.HasPrefix(id.Name, "_") && !strings.HasPrefix(id.Name, "#") {
+						req = true
+					}
+				}
+			}
+		}
+		if bound && req {
+			found = true
+		}
+	}
+	check(f.Decls)
+	ast.Walk(f, func(n ast.Node) bool {
+		if s, ok := n.(*ast.StructLit); ok {
+			check(s.Elts)
+		}
+		return true
+	}, nil)
+	return found
 }
 
 // c02HasRawStringTie: the program has, anywhere, a quoted label whose text is the spelling of
